@@ -22,6 +22,9 @@ pub struct WalkStats {
     /// C06 along the walk: a call that returned an error changed state, readable entries or cache counters
     pub refused_calls_compared: u64,
     pub trace_left: Option<Viol>,
+    /// C01 along the walk: an entry read back right after its append differs from what was appended
+    pub read_backs: u64,
+    pub read_back_wrong: Option<Viol>,
     pub kinds: std::collections::BTreeMap<String, u64>,
 }
 
@@ -100,7 +103,7 @@ pub fn walk_legal(seed: u64) -> (WalkStats, Option<Viol>, Option<Viol>, Option<V
 
 fn walk_x(seed: u64, legal: bool) -> (WalkStats, Option<Viol>, Option<Viol>, Option<Viol>) {
     let mut r = Rng::new(seed);
-    let mut stats = WalkStats { calls: 0, update_states: 0, reappended_resident_ids: 0, restarts: 0, restarts_refused: 0, accounting_observations: 0, refused_calls_compared: 0, trace_left: None, kinds: Default::default() };
+    let mut stats = WalkStats { calls: 0, update_states: 0, reappended_resident_ids: 0, restarts: 0, restarts_refused: 0, accounting_observations: 0, refused_calls_compared: 0, trace_left: None, read_backs: 0, read_back_wrong: None, kinds: Default::default() };
     let dir = util::fresh_dir("c16w");
     let cfg = CfgSpec {
         max_records: Some(*r.pick(&[2usize, 3, 5, 8, 1000])),
@@ -189,6 +192,26 @@ fn walk_x(seed: u64, legal: bool) -> (WalkStats, Option<Viol>, Option<Viol>, Opt
             if o.is_ok() {
                 for (id, _) in &es {
                     known.push(*id);
+                }
+                // what was just appended reads back as appended (a read that fails is not judged here: with tiny caches
+                // and arbitrary ids the known finding D7 applies)
+                if stats.read_back_wrong.is_none() {
+                    for (id, pl) in &es {
+                        if id.1 == u64::MAX {
+                            continue; // read(from, to) cannot name index u64::MAX (to is exclusive)
+                        }
+                        if let Outcome2::Ok(v) = st.read(id.1, id.1.saturating_add(1)) {
+                            stats.read_backs += 1;
+                            if v.len() != 1 || v[0].0 != *id || v[0].1 != *pl {
+                                stats.read_back_wrong = Some(Viol {
+                                    prop: "C01".into(),
+                                    sig: "C01:walk:read_back_differs".into(),
+                                    text: format!("append of {:?} ({} B) was accepted; read({},{}) right after it returned {:?} ; calls so far: {}", id, pl.len(), id.1, id.1.saturating_add(1), v.iter().map(|e| (e.0, crate::model::short(&e.1))).collect::<Vec<_>>(), log.iter().rev().take(10).rev().cloned().collect::<Vec<_>>().join(" ; ")),
+                                    replay: json!({"kind": "c01w", "seed": seed.to_string(), "legal": legal}),
+                                });
+                            }
+                        }
+                    }
                 }
             }
             log.push(Op::Append(es).brief());
@@ -413,6 +436,11 @@ fn walk_x(seed: u64, legal: bool) -> (WalkStats, Option<Viol>, Option<Viol>, Opt
         replay: json!({"kind": "c02w", "seed": seed.to_string(), "cfg": cfg.to_json(), "calls": log}),
     });
     (stats, v, a, c2)
+}
+
+pub fn replay01(v: &serde_json::Value) -> Option<Viol> {
+    let seed: u64 = v["seed"].as_str()?.parse().ok()?;
+    walk_x(seed, v["legal"].as_bool().unwrap_or(false)).0.read_back_wrong
 }
 
 pub fn replay06(v: &serde_json::Value) -> Option<Viol> {
